@@ -60,7 +60,9 @@ TokDiff(o, p, loose) ==
     ELSE IF ~loose /\ o.hid # p.hid THEN "hidden"
     ELSE IF o.at # p.at THEN "attrs"
     ELSE IF o.me # p.me THEN "meta"
-    ELSE IF o.kids # p.kids THEN "children"
+    \* list-item form: leading spaces kept on lazy continuation lines may also sit inside a code span (or a raw
+    \* HTML tag) that continues on such a line: kidsw = children with the white-space runs of those collapsed
+    ELSE IF (IF loose THEN o.kidsw # p.kidsw ELSE o.kids # p.kids) THEN "children"
     ELSE IF o.blk # p.blk THEN "block_flag"
     ELSE ""
 
